@@ -582,6 +582,40 @@ def apiOps {X} (c : Config) (f : Flags) (o : Op X) : Except String (List Prim ×
     `syncFirst`: source variant — the repaired entry (fixes/C09-integrate-reverse-sync.diff)
     synchronises before the sign of `dt` is changed. -/
 
+/-- `reb_simulation_step` with the user callbacks `pre_timestep_modifications` /
+    `post_timestep_modifications` (rebound.c:89-94, 144-149), in terms of the op alphabet: the
+    callback (a particle edit, `poke`) is preceded by a synchronize and followed by setting the
+    recalculate flags — in that order -/
+def cbStepPlan {X} (pre post : Option X) : List (Op X) :=
+  (match pre with | some v => [Op.synchronize, .poke v, .setRecalc] | none => []) ++ [.step] ++
+  (match post with | some w => [Op.synchronize, .poke w, .setRecalc] | none => [])
+
+/-- sequences of public calls in which particles are edited only through the step callbacks -/
+inductive MOp (X : Type) where
+  | cbStep (pre post : Option X)     -- reb_simulation_step with / without callbacks that edit particles
+  | synchronize
+  | read
+  deriving Repr
+
+def MOp.expand {X} : MOp X → List (Op X)
+  | .cbStep pre post => cbStepPlan pre post
+  | .synchronize => [.synchronize]
+  | .read => [.read]
+
+def expandAll {X} (l : List (MOp X)) : List (Op X) := l.flatMap MOp.expand
+
+/-- are all particle edits of an op sequence seen and picked up?  every `poke` is executed in a
+    synchronised state (`isS`), and the step that follows an edit is entered synchronised with the
+    recalculate flag set (`isR`), so that part1 transforms the edited particles and no synchronize
+    overwrites them first.  Generic in the integrator's flag transitions. -/
+def editOk {F X : Type} (stepF syncF setF : F → F) (isS isR : F → Bool) : List (Op X) → Bool → F → Bool
+  | [], _, _ => true
+  | .step :: r, pending, f => (!pending || (isS f && isR f)) && editOk stepF syncF setF isS isR r false (stepF f)
+  | .synchronize :: r, p, f => editOk stepF syncF setF isS isR r p (syncF f)
+  | .read :: r, p, f => editOk stepF syncF setF isS isR r p f
+  | .setRecalc :: r, p, f => editOk stepF syncF setF isS isR r p (setF f)
+  | .poke _ :: r, _, f => isS f && editOk stepF syncF setF isS isR r true f
+
 inductive DtOp where
   | api (o : Op Unit)
   /-- synchronize that ignores `keep_unsynchronized` (repaired source only:
